@@ -33,6 +33,7 @@ func contractTags(c *FuncContract) map[string]bool {
 		}
 	}
 	add(c.Requires)
+	add(c.Monitor)
 	add(c.Ensures)
 	add(c.Panics)
 	for _, l := range c.Loops {
@@ -277,6 +278,40 @@ func runCheck(o *checkOpts) int {
 		}
 	}
 	dischargeAll(results, scratch, o.seed, o.timeout, o.par, o.tier == "thorough", inLedger)
+	// aggregate guard obligations: per concurrent unit and declared field, "every access respects the discipline".
+	// A new access site that violates the discipline fails the aggregate, which is in the ledger even when the unit
+	// had no access site on the unchanged tree.
+	if prog != nil && (o.prop == "" || o.prop == "C09") {
+		var decls []string
+		for _, cs := range prog.Contracts {
+			for _, fd := range cs.Fields {
+				decls = append(decls, fd.Type+"."+fd.Field)
+			}
+		}
+		sort.Strings(decls)
+		for _, r := range results {
+			if r.Mode != "conc" || r.Err != "" {
+				continue
+			}
+			for _, d := range decls {
+				n, bad := 0, 0
+				for _, ob := range r.Obls {
+					if ob.Kind == "guard" && strings.HasPrefix(ob.Label, d+".") {
+						n++
+						if ob.Status != "unsat" {
+							bad++
+						}
+					}
+				}
+				st := "unsat"
+				if bad > 0 {
+					st = "sat"
+				}
+				r.Obls = append(r.Obls, &Obligation{Name: r.Pkg + "." + r.Unit + "#guardall[" + d + "]", Kind: "guardall", Label: d, Tags: []string{"C09"}, PC: True, Cond: True,
+					Src: fmt.Sprintf("every access to %s in this function respects its declared locking discipline (%d sites, %d failing)", d, n, bad), Unit: r.Unit, Status: st, Solver: "aggregate"})
+			}
+		}
+	}
 	if o.dump != "" {
 		os.MkdirAll(o.dump, 0o755)
 		for _, r := range results {
